@@ -52,8 +52,8 @@ Generic(e) ==
     LET T == TreeOf(e.tree) IN
     /\ fs' = FsOf(e.fs) /\ idx' = IdxOf(e.idx)
     /\ out' = [op |-> e.op, res |-> e.res]
-    /\ head' = IF e.op \in {"CL", "RH"} \/ (e.op \in {"CO", "COF"} /\ e.res = "ok") THEN T ELSE head
-    /\ hasHead' = (hasHead \/ e.op \in {"CL", "RH"} \/ (e.op \in {"CO", "COF"} /\ e.res = "ok"))
+    /\ head' = IF e.op \in {"CL", "RH", "RM"} \/ (e.op \in {"CO", "COF"} /\ e.res = "ok") THEN T ELSE head
+    /\ hasHead' = (hasHead \/ e.op \in {"CL", "RH", "RM"} \/ (e.op \in {"CO", "COF"} /\ e.res = "ok"))
     /\ n' = n + 1
     /\ UNCHANGED <<prot, esc>>
 
